@@ -194,7 +194,8 @@ class Side:
         self.cs = build(spec, ctx if tag == "sut" else None, self.fns)
 
 
-STORES = [True, True, False, "alt", ["a1", "a2", "a3"], ["field", "raw_field", "rk2"]]
+STORES = [True, True, False, "alt", ["a1", "a2", "a3"], ["field", "raw_field", "rk2"],
+          ["x", False, False], [True, True, False]]
 KSTORES = [True, True, False, "kf", ["kf", "kv"], [True, "kv2"]]
 
 
@@ -227,6 +228,11 @@ class Machine:
         w = self.cfg["weights"]
         kinds = sorted(k for k in w if w[k] > 0)
         kind = rng.choices(kinds, [w[k] for k in kinds])[0]
+        # right after a call that died half-way: prefer a state change followed by an observation
+        # (faults placed next to state changes find more than uniformly scattered ones)
+        pend = getattr(self, "pending", [])
+        if pend and not self.force_observe:
+            kind = pend.pop(0)
         if self.force_observe:
             kind = "gen"
         m = self.spec["model"]
@@ -281,6 +287,9 @@ class Machine:
                 v = rng.choice(cm.opt_grid(m["cls"], self.dim)[p[4:]])
             return {"op": "inplace_model", "param": p, "value": v}
         if kind == "assign_model":
+            if rng.random() < 0.3:
+                # an equal-valued but distinct model object (later changed through the reference)
+                return {"op": "assign_model", "model": cm.spec_copy(m), "equal": True}
             new = cm.gen_model_spec(rng, self.mdim, nugget=m["nugget"],
                                     slow_share=0.03 if not cm.is_slow(m) else 1.0,
                                     name=rng.choice(["Gaussian", "Exponential", "Spherical"])
@@ -353,8 +362,11 @@ class Machine:
             p = rng.choice(["var", "len_scale"])
             return {"fault": f, "param": p, "bad": rng.choice([-1.0, 0.0]),
                     "repair": rng.choice(cm.VAR_GRID if p == "var" else cm.LEN_GRID)}
-        return {"fault": "callback_raise", "what": rng.choice(["mean", "trend", "drift"]),
-                "n": rng.randint(1, 3)}
+        whats = [k for k in ("mean", "trend", "drift")
+                 if isinstance(self.sut.fns.get(k), cm.LinFn)] or ["trend"]
+        return {"fault": "callback_raise", "what": rng.choice(whats), "n": rng.randint(1, 6),
+                "then_gen": rng.sample(range(self.npool), rng.randint(2, min(6, self.npool)))
+                if rng.random() < 0.7 else None, "chunk": rng.choice([1, 1, 2])}
 
     # --------------------------------------------------------------- execution
     def apply(self, op):
@@ -477,6 +489,7 @@ class Machine:
             self.last = last
         if failed:
             self.ctx.probe("call_failed_midway")
+            self.pending = ["set_condition", "gen"]
             # the twin did not fail: bring it to the same abstract state is not possible in
             # general (partial stores); from here on the twin is dropped for this run
             self.twin = None
@@ -757,11 +770,12 @@ class Machine:
             raise Inapplicable("1d")
         ce = self.spec["krige"]["cond_err"]
         for s in self.sides():
+            target = getattr(s, "model_ref", None) or s.cs.model
             try:
-                setattr(s.cs.model, p[4:] if p.startswith("opt:") else p, v)
+                setattr(target, p[4:] if p.startswith("opt:") else p, v)
             except ValueError as e:
                 raise Inapplicable("setter rejected: %s" % e)
-        self.spec["model"] = read_model(self.sut.cs.model)
+        self.spec["model"] = read_model(getattr(self.sut, "model_ref", None) or self.sut.cs.model)
         self._refresh()
 
     def _op_assign_model(self, op):
@@ -770,8 +784,9 @@ class Machine:
                 self.spec["model"]["nugget"] > 0) or bool(new.get("latlon")) != self.latlon:
             raise Inapplicable("dim / nugget side / flavour")
         for s in self.sides():
-            s.cs.model = cm.build_model(new)
-        self.spec["model"] = read_model(self.sut.cs.model)
+            s.model_ref = cm.build_model(new)   # the user keeps a reference to what he assigns
+            s.cs.model = s.model_ref
+        self.spec["model"] = read_model(self.sut.model_ref)
         self._refresh()
 
     def _op_assign_post(self, op):
@@ -869,6 +884,12 @@ class Machine:
             if not isinstance(fn, cm.LinFn):
                 raise Inapplicable("no callable " + op["what"])
             fn.arm(op["n"])
+            if op.get("then_gen"):
+                # place the fault inside an operation with in-flight state: a chunked
+                # generation on new positions that dies in the n-th invocation
+                self._op_gen({"op": "gen", "layout": "unstructured", "idx": op["then_gen"],
+                              "seed": {"mode": "keep"}, "store": True, "krige_store": True,
+                              "post": True, "chunk": op.get("chunk", 1)})
         else:
             raise HarnessError("fault %r" % (op,))
 
